@@ -22,8 +22,9 @@
 
 import random
 from collections import deque
-from typing import TYPE_CHECKING
+from typing import TYPE_CHECKING, Set
 
+from .._dns import DNSRecord
 from .._utils.time import current_time_millis, millis_to_seconds
 from .answers import (
     MULTICAST_DELAY_RANDOM_INTERVAL,
@@ -91,6 +92,22 @@ class MulticastOutgoingQueue:
         for pending in self.queue:
             for record in answers:
                 pending.answers.pop(record, None)
+
+    def async_remove_records(self, records: Set[DNSRecord]) -> None:
+        """Remove records that have been withdrawn from everything that waits in the queue.
+
+        The records are removed as answers, and from the additionals of the answers
+        that stay: an address record that has just been sent with a goodbye packet
+        must not follow it with its full TTL as an additional of another answer.
+        """
+        for pending in self.queue:
+            answers = pending.answers
+            for record in records:
+                answers.pop(record, None)
+            for answer, additionals in answers.items():
+                if not additionals.isdisjoint(records):
+                    # The sets are shared with the ServiceInfo they came from
+                    answers[answer] = additionals - records
 
     def async_ready(self) -> None:
         """Process anything in the queue that is ready."""
